@@ -279,18 +279,20 @@ PROPS = {
         assumptions=['termination and absence of panics are observed per run (10 s limit per case), not proved'],
     ),
     'C02': dict(
-        theorem_files=['C02', 'C02b', 'C02s', 'C02p', 'C01c', 'Snap', 'Trace'],
+        theorem_files=['C02', 'C02b', 'C02s', 'C02p', 'C02g', 'C01c', 'Snap', 'Trace'],
         parts=[dict(harness='C02', judge='solve_m', cases=dict(quick=8000, thorough=80000), judge_module='Judge.JModel', judge_fn='judge_solve_case_m'),
                dict(harness='S02', judge='snaps', cases=dict(quick=10000, thorough=60000), judge_module='Judge.J21', judge_fn='judge_snaps'),
                dict(harness='T02', judge='trace', cases=dict(quick=200, thorough=2000), judge_module='Judge.J22', judge_fn='judge_trace', kernel_cases=12, kernel_maxlen=40000),
-               dict(harness='P02', judge='parse', cases=dict(quick=5000, thorough=40000), judge_module='Judge.J23', judge_fn='judge_parse', kernel_cases=60, kernel_maxlen=1500)],
+               dict(harness='P02', judge='parse', cases=dict(quick=5000, thorough=40000), judge_module='Judge.J23', judge_fn='judge_parse', kernel_cases=60, kernel_maxlen=1500),
+               dict(harness='G02', judge='goir', cases=dict(quick=6000, thorough=60000), judge_module='Judge.J25', judge_fn='judge_goir', kernel_cases=100, kernel_maxlen=1500)],
         rule='random sets of 1..n+3 cardinality / PB constraints over 1..10 (quick) or 1..16 (thorough) variables built through '
              'the public constructors (AtLeast1 AtMost1 Exactly1 CardConstr, PropClause AtLeast AtMost GtEq LtEq Eq), '
              'coefficients in [-W,W] W in {1,2,4,9} incl. 0, degree from below the minimum to above the maximum of the sum, '
              'through ParseCardConstrs and ParsePBConstrs; non-trivial = at least 2 constraints'
              ' Second part (S02): solves with the search-state tracing hooks on; at up to 4 tracing points per solve the state handed to conflict analysis (trail, levels, reasons, conflict) and its result, and the state when propagation ended without conflict, are judged by coq/Judge/J21.v: the state meets the hypotheses of the theorems about Model/Learn.v / Model/CPSearch.v, the analysis returned what the model computes on that state, no constraint is falsified (nor, for clauses and cardinality constraints, propagating) at a quiet point'
              ' Third part (T02): WHOLE RUNS of the search loop: tracing at every tracing point (up to 300 per solve, a third of the solves with restarts forced by the hook VerifRestartEvery, learned-clause limit lowered by VerifSetNbMax); coq/Judge/J22.v rebuilds the command list of coq/Model/Search.v from the snapshots (decisions, propagations with their reasons, conflicts, restarts, forgotten clauses), runs the mirrored loop on it -- the successor of each conflict is computed by Model.Learn.conflict_step --, demands the observed state after every group of commands and the observed answer at the end, and replays the whole list with Model.Search.replay (J_trace_unsat / J_trace_sat: the answer is then proved right for this run)'
-             ' Fourth part (P02): the Problem value built by the front end (NbVars, Status, Units, Model, Clauses in order with their literals in order, weights and degree) equals, field by field, what the mirrored front end of coq/Model/Simplify.v / Model/Solve.v builds from the same arguments (coq/Judge/J23.v); for P02 also the results of GtEq / LtEq / Eq against Model/PBNorm.v',
+             ' Fourth part (P02): the Problem value built by the front end (NbVars, Status, Units, Model, Clauses in order with their literals in order, weights and degree) equals, field by field, what the mirrored front end of coq/Model/Simplify.v / Model/Solve.v builds from the same arguments (coq/Judge/J23.v); for P02 also the results of GtEq / LtEq / Eq against Model/PBNorm.v'
+             ' Fifth part (G02): the constructors of pb.go / card.go (WeightSum PropClause AtLeast AtMost GtEq LtEq Eq AtLeast1 AtMost1 Exactly1) on generated arguments (nil / empty / non-empty slices, weights of any sign incl. 0, equal and unequal lengths): result, panic and the contents of the CALLER\'s slices after the call equal what the interpreter of coq/Model/GoIR.v computes on the syntax trees regenerated from the same sources (coq/Gen/GoSrc.v); this checks the translator and the slice semantics that the refinement theorems of coq/Properties/C02g.v (executed source = hand-written model, for every input) rest on',
         nontrivial=_solve_nontrivial, stats=_verdict_stats,
         assumptions=['each variable occurs at most once per constraint (as the property states)',
                      'Go int overflow is not modelled (coefficients are small)'],
